@@ -517,7 +517,7 @@ TRUSTED = [
 
 
 def run(ctx):
-    ctx.prove(["Base", "C18"], "C18/Props.v", allowed_axioms=(), trusted_base=TRUSTED)
+    ctx.prove(["C18/Model.v", "C18/Causal.v", "C18/CRDT.v", "C18/Props.v"], allowed_axioms=(), trusted_base=TRUSTED)
     n = ctx.n(250, 6000)
     stats = [run_family(ctx, fam, n) for fam in FAMILIES]
     merge_stats(ctx, stats, "random structured histories/op schedules over 2-5 replicas; non-trivial = contains a receive/merge/remove; distinct by JSON of the input")
